@@ -5,6 +5,7 @@ package main
 import (
 	"bytes"
 	"fmt"
+	"io"
 	"math"
 	"math/rand/v2"
 
@@ -180,13 +181,16 @@ func c04Files(c *Ctx) {
 			nr := 1 + r.IntN(20)
 			var text bytes.Buffer
 			var want []item
+			var ms []func() ([]byte, error)
+			var ws []func(io.Writer) error
 			for j := 0; j < nr; j++ {
 				b := genBED(r, nf)
-				if err := b.Write(&text); err != nil {
-					k.Failf("write-error", "Write returned %v", err)
-				}
+				ms = append(ms, b.MarshalText)
+				ws = append(ws, b.Write)
 				want = append(want, item{Key: bedKey(bedExpected(b))})
 			}
+			// all records marshalled first (results held), then written and compared
+			text.Write(heldMarshalCheck(k, ms, ws))
 			k.Input("N", nf)
 			k.Input("text", text.Bytes())
 			got, over := collect(codecByName("bed").seq(bytes.NewReader(text.Bytes())), nr+3)
